@@ -15,6 +15,8 @@ DECIDED = ('(a) the scanner terminates: on every path round the outer loop the c
            'the second creates [first, second] stored once, later values are appended to that list; (d) on keys and values '
            '"+" is turned into a space before percent-decoding and never after it; forms text is taken from the body as '
            'latin1.')
+DECIDED_MORE = ('Also: separators are searched in still-escaped text; the promoted list is kept under the key.')
+DECIDED = DECIDED + ' ' + DECIDED_MORE
 NOT_DECIDED = ('encode -> parse equality for all pair lists (urllib.parse.unquote semantics); UTF-8 decoding of escapes is '
                'urllib behaviour.')
 ASSUMPTIONS = ["urllib.parse.unquote(s) with default errors='replace' raises nothing",
